@@ -194,6 +194,69 @@ def features(lf):
     return f
 
 
+def _np_values(values, t):
+    """numpy result of core.read_data_page -> list of ints / bytes comparable with the model's output"""
+    import numpy as np
+    if values is None:
+        return None
+    if hasattr(values, "dtype") and values.dtype.kind in "iu":
+        w = values.dtype.itemsize * 8
+        return [int(v) & ((1 << w) - 1) for v in values.tolist()]
+    if hasattr(values, "dtype") and values.dtype.kind == "b":
+        return [int(v) for v in values.tolist()]
+    if hasattr(values, "dtype") and values.dtype.kind == "f":
+        return [int(v) for v in values.view("uint%d" % (values.dtype.itemsize * 8)).tolist()]
+    if hasattr(values, "dtype") and values.dtype.kind == "S":
+        return [int.from_bytes(bytes(v).ljust(values.dtype.itemsize, b"\0"), "little") if t == 3 else bytes(v).ljust(values.dtype.itemsize, b"\0")
+                for v in values.tolist()]
+    out = []
+    for v in list(values):
+        out.append(v.encode("utf-8") if isinstance(v, str) else bytes(v))
+    return out
+
+
+def model_vs_reader(pq, data, lf):
+    """correspondence of Impl/RPages.v rd_data_page with core.read_data_page on every v1 data page of the file:
+    -> list of (case, model, impl) that disagree, number of pages compared"""
+    import numpy as np
+    from fastparquet import core, schema
+    from fastparquet.cencoding import NumpyIO
+    from harness import pqfile, fmtlib
+    fmd, _ = pqfile.read_footer(data)
+    helper = schema.SchemaHelper(fmd.schema)
+    bad, n = [], 0
+    for rg in fmd.row_groups:
+        for col, l in zip(rg.columns, lf["leaves"]):
+            cmd = col.meta_data
+            pages, _, _ = pqfile.chunk_pages(data, cmd)
+            for pg in pages:
+                if pg["type"] != 0:
+                    continue
+                payload = pg["payload"]
+                raw = payload if not cmd.codec else fmtlib.CODECS[cmd.codec][1](payload, pg["uncompressed_page_size"])
+                m = pq.call("fmt_rd_data_page", 0, l["type"], l["tlen"], 1 if l["optional"] else 0, pg["num_values"], pg["encoding"], raw)
+                if m[0] == b"ok":
+                    model = ["ok", (list(m[1][0]) if m[1] else None), [c for c in m[3]]]
+                else:
+                    model = [m[0].decode()]
+                try:
+                    if len(payload) == 0:
+                        raise ValueError("empty payload")
+                    defi, rep, val = core.read_data_page(NumpyIO(np.frombuffer(payload, "uint8")), helper, pg["ph"], cmd, False, selfmade=False)
+                    impl = ["ok", (None if defi is None else [int(x) for x in defi]), _np_values(val, l["type"])]
+                except NotImplementedError:
+                    impl = ["uns"]
+                except Exception as e:     # noqa
+                    impl = ["bad"]
+                n += 1
+                if model != impl and not (model[0] == "bad" and impl[0] == "bad"):
+                    if len(payload) == 0:
+                        continue
+                    bad.append(({"leaf": l["tag"], "optional": l["optional"], "enc": pg["encoding"], "n": pg["num_values"], "raw": raw.hex()[:400]},
+                                repr(model)[:300], repr(impl)[:300]))
+    return bad, n
+
+
 def run_case(lf, table, scratch, cats=False):
     """encode with the spec encoder, read with fastparquet -> dict(outcome, problems, ...)"""
     from harness import fmtlib
@@ -212,6 +275,13 @@ def run_case(lf, table, scratch, cats=False):
         res["spec"] = "spec decoder: %s %s" % (d[0], d[1])
     v = fm.validate(data, True, tbl)
     res["valid"] = v[0] + ((": " + v[1]) if len(v) > 1 else "")
+    res["model_bad"], res["model_pages"] = [], 0
+    if not features(lf)["raw"]:
+        try:
+            res["model_bad"], res["model_pages"] = model_vs_reader(pq, data, lf)
+        except Exception as e:    # noqa
+            import traceback
+            res["model_bad"] = [({"harness": "model_vs_reader"}, "exception", traceback.format_exc()[-600:])]
     fn = os.path.join(scratch, "c03.parquet")
     with open(fn, "wb") as f:
         f.write(data)
@@ -443,6 +513,12 @@ def run(ctx):
         ctx.count("valid_file", res["valid"][:60])
         ctx.correspondence("spec decoder reads the spec encoder's file back to the generated table (instance of spec_roundtrip)",
                            {"lfile": lf}, "ok", res["spec"])
+        safe = f["max_bp_width"] <= SAFE_BP and f["max_delta_width"] <= SAFE_DELTA
+        if safe:
+            for _ in range(res.get("model_pages", 0) - len(res.get("model_bad", []))):
+                ctx.correspondence("Impl/RPages.rd_data_page = core.read_data_page on every v1 data page (safe widths)", {}, 1, 1)
+            for mcase, mo, io in res.get("model_bad", []):
+                ctx.correspondence("Impl/RPages.rd_data_page = core.read_data_page on every v1 data page (safe widths)", mcase, mo, io)
         if exp["expect"] == "refuse":
             if res["outcome"] != "raised":
                 ctx.fail(classify(lf, res, "not-refused"), case, "a file using an unsupported encoding was decoded to values instead of being refused")
